@@ -155,6 +155,41 @@ PROPS = {
              'be reported as violated, never the reverse, for the dependency relation as modelled); calls are treated as '
              'functions of their arguments, receiver and working precision.',
         technique='deductive data-flow contracts (key-determines-value, invalidation, same-protocol) over the real function bodies'),
+    'C07': dict(
+        title='decimal strings convert to correctly rounded binary values', level='exploration', engines=['boundedprops'], no_units=True,
+        claim='Bounded only: from_str on a fixed list of boundary literals (ties, long digit strings, p/q, exponents beyond +-400) '
+              'plus seeded random literals, at 6 precisions and all five modes, against Fraction(literal): correctly rounded '
+              'inside 1e-100..1e100, never on the wrong side with a directed mode for every literal. (The deductive core of the '
+              'conversion -- from_int, from_rational/mpf_div, mpf_mul -- is under C02.)',
+        note='Exact rational / integer arithmetic of CPython is the oracle; the enumerated domain is written into evidence.coverage.rule.', technique='bounded native check against exact rational arithmetic (stand-in, not a proof)'),
+    'C08': dict(
+        title='printed numbers round-trip and are nearest decimal approximations', level='exploration', engines=['boundedprops'], no_units=True,
+        claim='Bounded only: eval(repr(x)) == x and nstr(x, n) is a nearest n-digit decimal (n = 1, 3, 8) for all odd mantissas '
+              'below 2^9 and seeded full-width mantissas over an exponent window at 3 precisions, plus values within 2^-280 of '
+              'decimal midpoints at 300 bits. Known finding F11 (double rounding through truncated digits: nstr(x, 1) = 0.1 for a '
+              '300-bit x just above 0.15) is recorded, not repaired (the repair is not a minimal patch).',
+        note='Exact rational / integer arithmetic of CPython is the oracle; the enumerated domain is written into evidence.coverage.rule.', technique='bounded native check against exact rational arithmetic (stand-in, not a proof)'),
+    'C09': dict(
+        title='conversion to and from machine floats', level='exploration', engines=['boundedprops'], no_units=True,
+        claim='Bounded only: from_float(f) is exactly f for boundary doubles and 2000 seeded random bit patterns; to_float(x) equals '
+              'the nearest double (ties to even; CPython float(Fraction) as oracle) for 3000 seeded mantissa/exponent combinations '
+              'incl. exact ties and overflow to +-inf, subnormal range excluded as in the property.',
+        note='Exact rational / integer arithmetic of CPython is the oracle; the enumerated domain is written into evidence.coverage.rule.', technique='bounded native check against exact rational arithmetic (stand-in, not a proof)'),
+    'C25': dict(
+        title='integer-valued and number-theoretic functions are exact', level='exploration', engines=['boundedprops'], no_units=True,
+        claim='Bounded only: factorial, fac2, fib (also negative n), binomial, rf, ff on integer arguments up to 60, Stirling numbers '
+              '(exact=True), Bell, bernfrac (reduced, positive denominator), Euler numbers by exact recurrences, isprime/primepi against '
+              'a sieve up to 20000 plus the strong-pseudoprime switch points, moebius by trial division. Not covered: cyclotomic, '
+              'mangoldt, bernpoly/eulerpoly; the deterministic Miller-Rabin witness theorem is not a VC.',
+        note='Exact rational / integer arithmetic of CPython is the oracle; the enumerated domain is written into evidence.coverage.rule.', technique='bounded native check against exact integer/rational recurrences (stand-in, not a proof)'),
+    'C39': dict(
+        title='magnitude, nearest-integer and classification helpers are exact', level='other', engines=['boundedprops'],
+        claim='Deductive (all inputs): mpf_frexp (|y| in [1/2, 1), x = y*2^n exactly), to_man_exp, mpf_shift (exact scaling) from the '
+              'real libmpf bodies. Bounded (exact rational oracle): mag, nint_distance, isint, frexp, ldexp, isfinite/isinf/isnan/'
+              'isnormal at the context level on dyadic rationals with short, long and seeded mantissas and half-integers.',
+        note=KERNEL_NOTE + ' Exact rational / integer arithmetic of CPython is the oracle; the enumerated domain is written into evidence.coverage.rule.',
+        explanation='deductive contracts for the libmpf helpers; the context-level functions are covered only by the bounded tier (coverage.engine_boundedprops)',
+        technique='deductive VCs for libmpf helpers + bounded native check of the context-level functions'),
     'C11': dict(
         title='working precision restored on every exit', level='proof', engines=['precframe'], no_units=True,
         claim='For every function, method, nested function and lambda in mpmath (outside tests and libmp; 1093 on this tree) '
@@ -170,9 +205,6 @@ PROPS = {
 }
 
 NOT_APPLICABLE = {
-    'C07': 'not built yet (from_str numeric core contract + bounded parsing)',
-    'C08': 'round-trip/nearest-decimal needs a two-sided error analysis of to_digits_exp mixing floats, radix conversion and string slicing: outside what VCs over integers can decide; bounded-only tier not built',
-    'C09': 'not built yet (from_float/to_float under assumed IEEE builtin contracts)',
     'C12': 'accuracy of elementary functions is a real-analysis statement (truncation + rounding error of series/Newton kernels); no contract within reach decides it',
     'C13': 'not built yet (special-value entry paths)',
     'C15': 'not built yet (libmpi complex contracts)',
@@ -184,7 +216,6 @@ NOT_APPLICABLE = {
     'C22': 'accuracy of hypergeometric functions / orthogonal polynomials is analytic',
     'C23': 'accuracy of elliptic/theta/modular/AGM/Lambert W is analytic',
     'C24': 'termination of series summation loops depends on convergence of asymptotic series for the given argument: no ranking function without the analysis (termination of integer loops under contract is reported with their functions)',
-    'C25': 'not built yet (ifac/ifac2 memo contracts + exact-oracle bounded tier)',
     'C26': 'convergence/accuracy of quadrature on classes of integrands is analytic',
     'C27': 'convergence of series/limits/extrapolation is analytic',
     'C28': 'accuracy of numerical differentiation/Taylor/Pade is analytic',
@@ -194,7 +225,6 @@ NOT_APPLICABLE = {
     'C34': 'accuracy of ODE Taylor stepping is analytic',
     'C36': 'approximation accuracy is analytic',
     'C38': 'not built yet (context ownership contracts)',
-    'C39': 'not built yet (mag / nint_distance / classification contracts)',
     'C41': 'locating/counting zeta zeros correctly rests on analytic facts (Gram/Rosser blocks, Turing method)',
     'C42': 'accuracy of numerical inverse Laplace transforms is analytic (its precision handling is decided under C11)',
     'C43': 'fp results are IEEE doubles from libm; no float theory here matches libm, and agreement to 2**-48 is numerical',
